@@ -1,6 +1,6 @@
 """C14 - bSei reward pool solvent and complete: structural clauses (DESIGN 6, C14)."""
 from ..callgraph import explore, storage_effects, message_effects, site_guarded
-from ..expr import show
+from ..expr import show, arith_args
 from ..ledger import ledger_entries
 from .common import entry, variant_env, stored, where
 from .msgs import vec_elems, coin_parts, is_zero_fact
@@ -116,8 +116,8 @@ def run(prog, world, sem, rep):
         if inc.op == "call" and inc.info.endswith("Decimal::from_ratio"):
             num, den = inc.args
             num = world.ident(num)
-            okg = sem.label(den) == stored(RSTATE, "total_balance") and num.op == "call" and num.info.endswith("checked_sub") \
-                and sem.label(num.args[0]) == bal_l and sem.label(num.args[1]) == stored(RSTATE, "prev_reward_balance")
+            okg = sem.label(den) == stored(RSTATE, "total_balance") and arith_args(num, "Sub") is not None \
+                and sem.label(arith_args(num, "Sub")[0]) == bal_l and sem.label(arith_args(num, "Sub")[1]) == stored(RSTATE, "prev_reward_balance")
             detail = "increment from_ratio(%s, %s)" % (show(num, 3), sem.label(den))
     rep.ob("C14.b", "index += (balance - recorded) / total_balance", okg, detail, where(ex))
 
